@@ -88,6 +88,8 @@ def rule_sibling_order(ctx: Ctx, rep: Report) -> None:
     # verifier: if k < e: k = H(k + e) else: k = H(e + k)
     co = ctx.func(f"{T}.check_output_pubkey")
     ifs = [n for n in own_nodes(co.node) if isinstance(n, ast.If) and isinstance(n.test, ast.Compare) and any(isinstance(c, ast.Call) and call_name(c) == "tagged_hash" for s in n.body for c in ast.walk(s))]
+    # the same choice written as a conditional expression (`k = H(k + e) if k < e else H(e + k)`)
+    ifs += [n for n in own_nodes(co.node) if isinstance(n, ast.IfExp) and isinstance(n.test, ast.Compare) and any(isinstance(c, ast.Call) and call_name(c) == "tagged_hash" for c in ast.walk(n.body))]
     res_v = None
     if ifs:
         def concat(body):
@@ -95,7 +97,8 @@ def rule_sibling_order(ctx: Ctx, rep: Report) -> None:
             if c and isinstance(c[0].args[1], ast.BinOp) and ctx.fold(c[0].args[0], co.module) == b"TapBranch":
                 return norm(c[0].args[1].left), norm(c[0].args[1].right)
             return None
-        t, e = concat(ifs[0].body), concat(ifs[0].orelse)
+        as_list = lambda b_: b_ if isinstance(b_, list) else [b_]  # noqa: E731
+        t, e = concat(as_list(ifs[0].body)), concat(as_list(ifs[0].orelse))
         if t and e:
             res_v = _order_cases(ctx, ifs[0].test, t, e)
     ok_v = res_v is not None and all(v[0] <= v[1] for v in res_v.values())
